@@ -30,6 +30,10 @@ CLAIMED = {
  'C02': dict(engine = 'symx', technique = 'symbolic execution of real dictable.join/xor/_listby/sort/cmp with z3 over tagged key cells (None, ints, extended-real floats, NaN identity, pooled strings); fuel-bounded termination check; counterexample replay',
              text = 'For all pairs of tables up to 2x2 rows (thorough 3x2, 2x3) with symbolic keys, every lcols/rcols spelling and mode, the solver decides that join returns exactly the key-equal (left,right) pairs with multiplicity carrying key and other columns as the mode prescribes, xor the unmatched rows, join and xor partition the left rows, operands stay unchanged, and no path exceeds the unwinding bound (termination).',
              note = 'Trusted: z3/cvc5, CPython, proxies. Floats are extended reals; strings from a pool; payload columns hold concrete row ids. Non-termination = more than 4000 solver-decided branches on one path, confirmed by concrete replay under an alarm. Two key columns only on 1x1 tables in quick.'),
+
+ 'C14': dict(engine = 'symx', technique = 'symbolic execution of real eq/in_ with z3 over nested containers of tagged scalars (extended-real floats, NaN identity) plus a concrete numpy/pandas pool selected symbolically; counterexample replay',
+             text = 'For all pairs (depth <= 2) and triples (depth <= 1) of values from the universe the solver decides: a boolean is returned and nothing raises, symmetry, reflexivity on structural copies with fresh NaN objects, transitivity, False whenever the container skeletons differ at any depth, agreement with == on NaN-free plain values.',
+             note = 'Trusted: z3/cvc5, CPython, proxies, numpy/pandas themselves. numpy arrays, numpy scalars and pandas objects are drawn from a concrete pool of 20 by a symbolic index (their cells are not symbolic); containers have length <= 2 (quick 1).'),
 }
 NA = {}
 TODO = 'check not built yet in this session (work in progress); will be decided by symbolic execution of the real code as described in DESIGN.md'
